@@ -200,7 +200,7 @@ def validate_traces(module, cfg, traces, *, scratch, timeout=1800, chunk=None, e
         tf = os.path.join(scratch, "traces-%s-%d.json" % (module, ix))
         of = os.path.join(scratch, "out-%s-%d.json" % (module, ix))
         with open(tf, "w") as f:
-            json.dump(ch, f, separators=(",", ":"))
+            json.dump(scrub(ch), f, separators=(",", ":"))
         e = dict(TRACE_FILE=tf, OUT_FILE=of)
         if env:
             e.update(env)
@@ -231,6 +231,26 @@ def validate_traces(module, cfg, traces, *, scratch, timeout=1800, chunk=None, e
     return results, dict(generated=gen, distinct=dist, wall=round(wall, 2), jobs=len(chunks))
 
 
+def scrub(x):
+    """Values TLC's JSON reader cannot take (null, non-integral floats, integers beyond 32 bit)
+    are replaced by numbers no specification range contains, so that a record carrying a field the
+    code left unset or overflowed is *judged* (and rejected by the clause about that field)
+    instead of stopping the model checker.  Nothing is replaced on data the specification accepts."""
+    if x is None:
+        return -99999
+    if isinstance(x, bool) or isinstance(x, str):
+        return x
+    if isinstance(x, int):
+        return x if -2 ** 31 < x < 2 ** 31 else (2 ** 31 - 1 if x > 0 else -(2 ** 31 - 1))
+    if isinstance(x, float):
+        return int(x) if x == int(x) and abs(x) < 2 ** 31 else -99998
+    if isinstance(x, dict):
+        return {k: scrub(v) for k, v in x.items()}
+    if isinstance(x, (list, tuple)):
+        return [scrub(v) for v in x]
+    return str(x)
+
+
 def validate_records(module, cfg, recs, *, scratch, timeout=1800, parallel=6, env=None, heap="4g"):
     """Batch evaluation of independent records (pure-function conformance).
 
@@ -250,7 +270,7 @@ def validate_records(module, cfg, recs, *, scratch, timeout=1800, parallel=6, en
         tf = os.path.join(scratch, "recs-%s-%d-%d.json" % (module, ix, time.time_ns() % 10**9))
         of = tf.replace("recs-", "rout-")
         with open(tf, "w") as f:
-            json.dump(ch, f, separators=(",", ":"))
+            json.dump(scrub(ch), f, separators=(",", ":"))
         e = dict(TRACE_FILE=tf, OUT_FILE=of)
         if env:
             e.update(env)
